@@ -113,6 +113,13 @@ OBSERVERS = {
                                                       S('finalizer', {'$fn': 'c05_fin_stats_cb', 'env': True})],
                              'positions': [50, 50, 50]},
     'validate': S('validate'),
+    # two file dumpers of different formats in one pipeline, both seeing the same resources
+    'dump_csv+dump_json': {'op': 'flow', 'steps': [S('dump_to_path', {'$path': 'dump2c'}),
+                                                    S('dump_to_path', {'$path': 'dump2j'}, format='json')],
+                           'positions': [50, 50]},
+    'dump_json+dump_zip': {'op': 'flow', 'steps': [S('dump_to_path', {'$path': 'dump3j'}, format='json'),
+                                                    S('dump_to_zip', {'$path': 'out3.zip'})],
+                           'positions': [50, 50]},
 }
 OBS_POS = 50
 
@@ -151,8 +158,9 @@ def rows_norm(rows):
 
 
 # ---- execution -------------------------------------------------------------------------------
-def run_pipeline(prefix_state, steps, positions, decode=None):
-    """Returns dict(kind, state|exc, log, stats, captured)."""
+def run_pipeline(prefix_state, steps, positions, decode=None, twice=False):
+    """Returns dict(kind, state|exc, log, stats, captured). twice: the same Flow object is executed a second time and
+    the second execution is what is reported (log and captures of the first one are discarded)."""
     with core.scratch_dir() as d:
         env = Env(d)
         env.expected_markers = set()
@@ -163,6 +171,9 @@ def run_pipeline(prefix_state, steps, positions, decode=None):
                 env.pos = p
                 links.append(e1.build_link(s, env))
             flow = core.Flow(*links)
+            if twice:
+                flow.process()
+                del env.log[:]
             ds = flow.datastream()
             rows, tags = [], []
             for res in ds.res_iter:
@@ -227,14 +238,14 @@ def decode_for(obs):
     def d_path(env, out, sub='dump'):
         return decode_dump(env.path(sub))
 
-    def d_zip(env, out):
-        p = env.path('out.zip')
+    def d_zip(env, out, name='out.zip'):
+        p = env.path(name)
         try:
             z = zipfile.ZipFile(p)
             z.namelist()
         except Exception as e:
             return ('incomplete', 'zip file unreadable: %s' % type(e).__name__)
-        target = env.path('unzipped')
+        target = env.path('unzipped-' + name)
         z.extractall(target)
         return decode_dump(target)
 
@@ -278,12 +289,14 @@ def decode_for(obs):
         'checkpoint': lambda e, o: d_stream(e, o, 'checkpoints/cp%d/stream.ndjson' % OBS_POS),
         'finalizer': d_fin, 'update_stats': lambda e, o: ('stats', o.get('stats')), 'validate': lambda e, o: None,
         'dump+finalizer_stats': lambda e, o: ('finstats', [x[1] for x in o['log'] if x[0] == 'finstats']),
+        'dump_csv+dump_json': lambda e, o: ('multi', [d_path(e, o, 'dump2c'), d_path(e, o, 'dump2j')]),
+        'dump_json+dump_zip': lambda e, o: ('multi', [d_path(e, o, 'dump3j'), d_zip(e, o, 'out3.zip')]),
     }[obs]
 
 
 def expected_capture(obs, P):
     """What the observer must have captured, from the stepwise state P at its position."""
-    if obs in ('dump_to_path', 'dump_to_path_json', 'dump_to_zip'):
+    if obs in ('dump_to_path', 'dump_to_path_json', 'dump_to_zip', 'dump_csv+dump_json', 'dump_json+dump_zip'):
         rs = core.materialise(core.from_state(P), via='results')
         return ('package', P.names(), [rows_norm(r) for r in rs.rows])
     if obs in ('stream', 'checkpoint'):
@@ -314,7 +327,14 @@ def check_case(case):
     P = at['state']
     steps = sfx[:pos] + [OBSERVERS[obs]] + sfx[pos:]
     positions = spos[:pos] + [OBS_POS] + spos[pos:]
-    got = run_pipeline(prefix, steps, positions, decode_for(obs))
+    twice = bool(case.get('twice'))
+    if twice:
+        label += ', the Flow object executed a second time'
+    got = run_pipeline(prefix, steps, positions, decode_for(obs), twice=twice)
+    if got['kind'] == 'exc' and twice:
+        # a step object that refuses a second execution loudly (a zip archive / stream file opened when the step was
+        # built) loses nothing silently: not this property's business
+        return [], 'not-reusable', False
     if got['kind'] == 'exc':
         e = got['exc']
         viol.append(('observer-raises', '%s: raises %s: %s' % (label, core.exc_sig(e), str(e)[:120].replace('\n', ' '))))
@@ -327,7 +347,8 @@ def check_case(case):
     # (b) completeness
     cap = got.get('captured')
     exp = expected_capture(obs, P)
-    if exp is not None:
+    caps = cap[1] if (cap and cap[0] == 'multi') else [cap]
+    for cap in (caps if exp is not None else []):
         if cap is None or cap[0] in ('missing', 'incomplete', 'undecodable'):
             viol.append(('capture-' + (cap[0] if cap else 'none'), '%s: %s' % (label, cap[1] if cap else 'nothing captured')))
         elif exp[0] == 'stream':
@@ -343,6 +364,7 @@ def check_case(case):
             elif cap[2] != exp[2]:
                 viol.append(('capture-rows', '%s: captured rows differ from the stream at that position '
                              '(counts %r vs %r)' % (label, [len(r) for r in cap[2]], [len(r) for r in exp[2]])))
+    cap = got.get('captured')
     if obs == 'finalizer':
         _, fins, last_row = cap
         if len(fins) != 1:
@@ -399,6 +421,22 @@ def run_prefix(task):
                         continue
                     seen.add(sig)
                     out['viol'].append((sig, what, {'prefix': task['prefix'], 'suffix': suffix, 'obs': obs, 'pos': pos}))
+                if suffix in ([], ['add_field'], ['filter_some']):
+                    # the same Flow object executed again: the observer must capture the second execution as completely
+                    case = {'prefix': prefix, 'suffix': suffix, 'obs': obs, 'pos': pos, 'twice': True}
+                    viol, outcome, nontrivial = check_case(case)
+                    out['n'] += 1
+                    out['traces'] += 1
+                    out['transitions'] += 2 * (len(suffix) + 1)
+                    out['outcomes']['rerun:' + outcome] = out['outcomes'].get('rerun:' + outcome, 0) + 1
+                    if nontrivial:
+                        out['keys'].append(h([task['pkey'], suffix, obs, pos, 'twice']))
+                    for oracle, what in viol:
+                        sig = 'rerun-' + signature(oracle, obs, suffix, pos)
+                        if sig in seen:
+                            continue
+                        seen.add(sig)
+                        out['viol'].append((sig, what, {'prefix': task['prefix'], 'suffix': suffix, 'obs': obs, 'pos': pos, 'twice': True}))
     out['sample'] = {'prefix_resources': prefix.names(), 'suffixes': task['suffixes'][:3], 'observers': list(OBSERVERS)}
     return out
 
@@ -462,4 +500,4 @@ def run(run):
 
 def replay(w):
     viol, outcome, _ = check_case(w)
-    return [(signature(oracle, w['obs'], w['suffix'], w['pos']), what, w) for oracle, what in viol]
+    return [(('rerun-' if w.get('twice') else '') + signature(oracle, w['obs'], w['suffix'], w['pos']), what, w) for oracle, what in viol]
